@@ -642,6 +642,13 @@ impl<'a, T> ContextBase<'a, T> {
             Some(value) => (value.pos, self.resolve_input_value(value)?),
             None => (Pos::default(), None),
         };
+        // An argument bound to a variable that the request omits (and that has no
+        // default of its own) has no value: the argument's default applies.
+        if value.is_none()
+            && let Some(default) = default
+        {
+            return Ok((pos, default()));
+        }
         InputType::parse(value)
             .map(|value| (pos, value))
             .map_err(|e| e.into_server_error(pos))
